@@ -10,7 +10,7 @@ PROPS["C01"] = dict(
          "'B waits 0.6..3.1 leases in Lock() while A holds and renews, A unlocks, B holds 2.5 leases, a contender must stay excluded', and 'the holder dies, its record expires under 2-3 waiting lockers, which must then hold the lock one "
          "at a time', and 'a lock is unlocked during its renewal while other locks of the process are being acquired; those stay exclusive', and 'the same Locker is unlocked and re-locked while a renewal of its first tenure is in flight (held before / after the storage applied it, "
          "optionally with the second Create in flight too); the second tenure stays exclusive for 2.5 leases' (lease 300 ms). The longwaiter unit also holds a lock acquired through LockWithCtx/TryLock with a context cancelled right afterwards (on a storage that refuses done contexts), and holds against a blocking contender whose Create calls fail: the contender must stay excluded. "
-         "The key space is spelled with prefixes of 1..45 bytes and lock names of 1..7 bytes in three styles (up to 3 names, up to 5 Locker objects created in drawn order on up to 3 providers). The longwaiter unit further covers deadline-carrying acquisitions whose deadline runs out during the tenure, the sharedhandoff and trygate scenarios (two goroutines on one Locker) judged for exclusion. Provider Shutdown moves are enabled in one case of six, and in half of the cases the storage refuses calls whose context is done. "
+         "The key space is spelled with prefixes of 1..45 bytes and lock names of 1..7 bytes in three styles (up to 3 names, up to 5 Locker objects created in drawn order on up to 3 providers). Injected storage errors of the engine take six shapes (plain, wrapping ErrClosed / ErrCommunication / ErrInternal, context.DeadlineExceeded, io.ErrUnexpectedEOF). The longwaiter unit further covers three renewal failures in a row, a second goroutine using the holder's Locker meanwhile (cancelled LockWithCtx, failing TryLock), deadline-carrying acquisitions whose deadline runs out during the tenure, the sharedhandoff and trygate scenarios (two goroutines on one Locker) judged for exclusion. Provider Shutdown moves are enabled in one case of six, and in half of the cases the storage refuses calls whose context is done. "
          "non-trivial = a Create of one Locker object met the record of another (ErrExist), or a fault or a cancel hit a parked attempt; "
          "distinct = hash of the case",
     assumptions=["interleavings are controlled at storage-operation granularity; goroutine interleavings inside one storage call are not (the in-memory "
